@@ -199,6 +199,10 @@ func run(id string, cfg propCfg, tier string, seed int64, replay string, keep bo
 		env = append(env, "VERIF_PTKILL="+pk)
 	}
 	env = append(env, "VERIF_NODE_WORKER="+filepath.Join(harness, "node", "worker.js"))
+	if cfg.race {
+		// the first race report ends the process with the case in flight on disk
+		env = append(env, "GORACE=halt_on_error=1 exitcode=66")
+	}
 
 	// 2. replay mode
 	if replay != "" {
